@@ -395,6 +395,69 @@ def history_case(rng):
     return {"catalogue": cat, "steps": steps, "dialect": rng.choice(["MYSQL", "HIVE", "DEFAULT"]), "name": N, "name_is_base_table": B is not None}
 
 
+def ambiguity_case(rng):
+    """the AMBIGUITY family: an unqualified reference whose name exists in two upstream tables of one SELECT level must be refused with
+    the library's analysis error — whatever the two tables are (base / derived / WITH, in both orders) and however the column is defined in
+    a derived / WITH table (base column, constant, expression over two columns, dialect variable: the last three carry few or no base
+    sources, which must not make the name look unique).  Control: the name exists in one of the two only, and the flow is known."""
+    k = rng.below(90) + 10
+    X = rng.choice(["x%d" % k, "val_%d" % k, "C%d" % k])
+    P = {"name": "p%d" % k, "cols": ["p1", "p2", X]}
+    Q = {"name": "q%d" % k, "cols": ["q1", X, "q2"]}
+    R = {"name": "r%d" % k, "cols": ["r1", "r2"]}
+    cat = "; ".join("CREATE TABLE %s (%s)" % (t["name"], ", ".join(c + " int" for c in t["cols"])) for t in rng.shuffle([P, Q, R]))
+    DEFS = {"base-column": ("%s.r1" % R["name"], [(None, R["name"], "r1")]), "constant": (rng.choice(["1", "0", "'c'", "NULL"]), []),
+            "expression": ("%s.r1 + %s.r2" % (R["name"], R["name"]), [(None, R["name"], "r1"), (None, R["name"], "r2")]),
+            "dialect-variable": (rng.choice(["CURRENT_DATE", "CURRENT_TIMESTAMP"]), [])}
+    withs = []
+
+    def entry(kind, has_x, n):
+        """(FROM text, name to qualify with, sources of X or None if the entry has no column X, join key)"""
+        if kind == "base":
+            t = (P if n == 0 else Q) if has_x else R
+            al = "b%d" % n if rng.chance(0.4) else None
+            return t["name"] + (" AS " + al if al else ""), al or t["name"], ([(None, t["name"], X)] if has_x else None), t["cols"][0], "base"
+        d = rng.choice(sorted(DEFS))
+        text, srcs = DEFS[d]
+        name = ("d%d" if kind == "derived" else "w%d") % n
+        body = "SELECT %s AS %s, %s.r2 AS k%d FROM %s" % (text, X if has_x else "other_%d" % n, R["name"], n, R["name"])
+        if kind == "derived":
+            return "(%s) %s" % (body, name), name, (srcs if has_x else None), "k%d" % n, d
+        withs.append("%s AS (%s)" % (name, body))
+        return name, name, (srcs if has_x else None), "k%d" % n, d
+
+    pair = rng.choice([("base", "base"), ("derived", "base"), ("base", "derived"), ("with", "base"), ("base", "with"), ("derived", "derived"),
+                       ("with", "derived"), ("derived", "with")])
+    control = rng.chance(0.3)
+    has = [True, True] if not control else rng.shuffle([True, False])
+    e = [entry(pair[0], has[0], 0), entry(pair[1], has[1], 1)]
+    frm = e[0][0] + (", " + e[1][0] if rng.chance(0.4) else " %s %s ON %s.%s = %s.%s" % (rng.choice(["JOIN", "LEFT JOIN", "INNER JOIN"]), e[1][0], e[0][1], e[0][3], e[1][1], e[1][3]))
+    shape = rng.below(4)
+    item, name = [(X, X), ("%s + 1 AS o1" % X, "o1"), ("f(%s, 2) AS o1" % X, "o1"), ("CASE WHEN %s > 0 THEN %s ELSE 0 END AS o1" % (X, X), "o1")][shape]
+    other = "%s.%s AS o2" % (e[0][1], e[0][3])
+    items = rng.shuffle([item, other])
+    text = "SELECT " + ", ".join(items) + " FROM " + frm
+    if control:
+        src = [x for x in e if x[2] is not None][0]
+        flow = {name: frozenset(tuple(t) for t in src[2]), "o2": None}
+        key_src = frozenset([(None, P["name"] if e[0][0].startswith(P["name"]) else R["name"] if e[0][0].startswith(R["name"]) else Q["name"], e[0][3])]) if pair[0] == "base" else frozenset([(None, R["name"], "r2")])
+        flow["o2"] = key_src
+        want = [((X if it is item and shape == 0 else ("o1" if it is item else "o2")), flow[name] if it is item else flow["o2"]) for it in items]
+    else:
+        want = "ANALYZER"
+    kind = "select"
+    if rng.chance(0.2):
+        text = "INSERT INTO %s (r1, r2) %s" % (R["name"], text); kind = "insert"
+        if want != "ANALYZER":
+            want = [((None, R["name"], c), w[1]) for c, w in zip(["r1", "r2"], want)]
+    if withs:
+        text = "WITH " + ", ".join(withs) + " " + text
+    text, _ = anfam.recase(rng, text)
+    return {"catalogue": cat, "text": text, "kind": kind, "want": want, "risky": [], "dialect": rng.choice(["MYSQL", "HIVE", "DEFAULT"]),
+            "tags": ["ambiguity:%s-%s" % pair, "ambiguity:%s" % ("control" if control else "ambiguous"), "ambiguity:def:%s" % e[0][4], "ambiguity:def:%s" % e[1][4]],
+            "family": "ambiguity:%s-%s:%s+%s:%s" % (pair[0], pair[1], e[0][4], e[1][4], "control" if control else "ambiguous")}
+
+
 def req_seq(c):
     return "AN lineage-seq %s %s %s" % (c["dialect"], E.enhex(c["catalogue"]), " ".join(E.enhex(st["text"]) for st in c["steps"]))
 
@@ -529,6 +592,10 @@ def run(ctx):
     ctx.cov["rule"] += (" (3) histories: sequences of 2–4 statements over one catalogue analysed on ONE TableLineageAnalyzer, one name being a derived alias in one statement, "
                         "a WITH table in another and (when it names a catalogue table) a base table in a third, in every order, mixed with random clean statements; each answer "
                         "must be the statement's own known flow; keywords of every generated text in upper / lower / Capitalised / mixed case.")
+    ctx.cov["rule"] += (" (4) ambiguity family: an unqualified reference (bare, in arithmetic, in a function, in CASE; also under INSERT … SELECT) whose name exists in two upstream "
+                        "tables of the level — (base, base), (derived, base), (WITH, base), (derived, derived), (WITH, derived) in both orders, the column being a base column / a constant / "
+                        "an expression over two columns / a dialect variable in the derived or WITH table — must be refused with the analysis error; control: the name exists in one "
+                        "table only and has its known flow.")
     ctx.cov["validated_only"] = ["agreement of the hand model with analyzer/data_linage/*.py, current_level_table_name_analyzer.py, current_level_sub_query.py (sampled)"]
     r = ctx.rng.fork("c16")
     cases = [known_case(r) for _ in range(n_clean)]
@@ -544,6 +611,22 @@ def run(ctx):
         for t in c["tags"]:
             ctx.count("shape:" + t)
         check_case(ctx, c, a, "dedicated generator")
+    # -- the ambiguity family ---------------------------------------------------------------------------------------------------
+    amb = [ambiguity_case(r) for _ in range(500 if ctx.quick else 15000)]
+    ares, _ = anfam.corr(ctx, [req(c) for c in amb], stream="ambiguity")
+    for c, (_, a, _) in zip(amb, ares):
+        for t in c["tags"]:
+            ctx.count("shape:" + t)
+        outcome, empty = judge(c, a)
+        if outcome is None and not empty:
+            ctx.count("oracle:ambiguity:" + ("refused" if c["want"] == "ANALYZER" else "flow-exact"))
+            continue
+        sig = "ambiguity:%s:%s" % ("control" if c["want"] != "ANALYZER" else "ambiguous", outcome or EMPTY_SCHEMA)
+        ctx.count("oracle:" + sig)
+        pfam.report(ctx, sig, {"kind": "input", "entry": "TableLineageAnalyzer", "dialect": c["dialect"], "input": c["text"], "catalogue": c["catalogue"], "stmt": c["kind"],
+                               "family": c["family"], "want": c["want"] if c["want"] == "ANALYZER" else [[w[0], sorted(map(list, w[1]), key=str)] for w in c["want"]],
+                               "observed": a[:900], "risky": [], "how_found": "ambiguity family",
+                               "oracle": "c16: an unqualified reference whose name exists in two upstream tables of the level is an analysis error, never a lineage; with a unique name it has its flow"})
     # -- histories: several statements on one analyzer -----------------------------------------------------------------------
     hist = [history_case(r) for _ in range(400 if ctx.quick else 12000)]
     hres, _ = anfam.corr(ctx, [req_seq(c) for c in hist], stream="history")
